@@ -153,9 +153,9 @@ func runC08(s c08Scen, c *ev.Case) *ev.Violation {
 
 		// ---- end the connection; [end.lo, end.hi] bounds the instant the broker saw it end ----
 		var end ival
-		suppress := false      // a DISCONNECT that suppresses the will
-		var sessEnd *ival      // the session was ended explicitly at this time
-		reattached := false    // take-over with resume: the session continues at once
+		suppress := false       // a DISCONNECT that suppresses the will
+		var sessEnd *ival       // the session was ended explicitly at this time
+		reattached := false     // take-over with resume: the session continues at once
 		var cl2 *fixture.Client // connection created by a take-over
 		end.lo = time.Now()
 		switch l.Ending {
